@@ -163,6 +163,16 @@ EXTRA6 = {
  "C19": ("; registrations in the params keeper's process memory during blocks (F18); persistent stores only", " The upgrade handlers register nothing in process memory; module state lives in committed stores."),
 }
 
+EXTRA7 = {
+ "C05": ("; bounds of the export's DID iteration", " The list accessor on the export path iterates the whole DID family (no bounds of its own)."),
+ "C12": ("; receiver writes of the stored types' validators", " Validators of the stored token and denom types do not rewrite what they validate."),
+ "C15": ("; fields of package-level structs as process memory", " A field of a package-level struct read on a handler's call tree counts as a read of that variable."),
+ "C16": ("; verdict provenance of the relationship validator", " A relationship is accepted only through the method validator or the method-id validator."),
+ "C18": ("; inverse pairing of rewrites in the string form", " The string encoder and decoder rewrite no component, or apply a recognised inverse pair."),
+ "C19": ("; raw DID-store writes and deletes on migration paths", " A registered module migration reaches no raw write or delete of the DID store."),
+ "C20": ("; read accessors return the stored value only", " The AOL read accessors return the unmarshalled store value and nothing derived from the context."),
+}
+
 PENDING_REASON = "check not built yet in this round (planned per DESIGN.md section 4); no claim is made until the checker rule exists"
 
 def main():
@@ -184,6 +194,8 @@ def main():
                 tech, text = tech + EXTRA5[pid][0], text + EXTRA5[pid][1]
             if pid in EXTRA6:
                 tech, text = tech + EXTRA6[pid][0], text + EXTRA6[pid][1]
+            if pid in EXTRA7:
+                tech, text = tech + EXTRA7[pid][0], text + EXTRA7[pid][1]
             if pid in ("C01","C02","C03","C04","C05","C06","C07","C08","C11","C12","C13","C15","C16","C18"):
                 tech, text = tech + EXTRA2["*"][0], text + EXTRA2["*"][1]
             checks.append({
